@@ -9,18 +9,17 @@ INVARIANT Kept
 INVARIANT LazyUnobservable
 INVARIANT Untouched
 VIEW View
-ACTION_CONSTRAINT Emit
 CHECK_DEADLOCK FALSE
 CONSTANTS
-  Sizes = {1, 2, 4, 8, 16, 32}
-  FrameCounts = {1, 3}
-  Layers = {"d1", "d4", "cube"}
-  Minors = {2, 3, 4, 5}
-  Fmts = {"RGBA8888", "RGB888", "A8"}
-  Lows = {"NONE", "RGB888"}
+  Sizes = {2, 8}
+  FrameCounts = {1}
+  Layers = {"d1", "cube"}
+  Minors = {5}
+  Fmts = {"RGBA8888", "BGRA4444", "IA88"}
+  Lows = {"NONE"}
   ResKinds = {}
   MaxRes = 0
   Access = FALSE
   Fills = {"l0"}
-  History = FALSE
-  MaxOps = 0
+  History = TRUE
+  MaxOps = 2
